@@ -32,6 +32,7 @@ def main(tier):
     chk.run("R-VISIBLE", RR.visible, r, floor=1)
     chk.run("R-SCOPEVIS", RR.scopevis, r, s, cx.sites, floor=6)
     chk.run("R-SKIPLOSS", T.skiploss, r, s, cx.sites, modules=("symbol_resolver.py",), floor=1)
+    chk.run("R-TRAVROOT", T.travroot, r, s, cx.sites, modules=("symbol_resolver.py",), floor=5)
     chk.run("R-TRAVPARAM", T.travparam, r, s, sr_sites, floor=30, control=lambda: T.control_travparam(r))
     chk.run("R-SCOPECHAIN", RR.scopechain, r, floor=2)
     chk.run("R-REFHEAD", RR.refhead, cx.repo, floor=1)
